@@ -200,7 +200,10 @@ Definition nullify_last_applied (obj : amap) : amap :=
   | None => obj
   | Some ann =>
       if ahas last_applied_annotation ann
-      then set_annotations obj (aremove last_applied_annotation ann)
+      then match aremove last_applied_annotation ann with
+           | [] => nested_remove obj ["metadata"; "annotations"]   (* SetAnnotations(nil): no empty map is left behind *)
+           | ann' => set_annotations obj ann'
+           end
       else obj
   end.
 
